@@ -355,9 +355,12 @@ func (sel *Selection) beginEdit(r NodeRequest, bubble bool) error {
 	var begun []NodeRequest
 	for {
 		if err := r.Selection.Node.BeginEdit(r); err != nil {
-			// nodes already told the edit begins need to hear it ended
+			// nodes already told the edit begins need to hear it ended, and what they
+			// have to say about it is reported too
 			for i := len(begun) - 1; i >= 0; i-- {
-				begun[i].Selection.Node.EndEdit(begun[i])
+				if endErr := begun[i].Selection.Node.EndEdit(begun[i]); endErr != nil {
+					err = endEditErr(endErr, err)
+				}
 			}
 			return err
 		}
@@ -376,9 +379,13 @@ func (sel *Selection) endEdit(r NodeRequest, bubble bool) error {
 	var firstErr error
 	for {
 		// every node that was told the edit begins gets to hear it ended even if
-		// another node fails
-		if err := r.Selection.Node.EndEdit(r); err != nil && firstErr == nil {
-			firstErr = err
+		// another node fails, and every failure is reported
+		if err := r.Selection.Node.EndEdit(r); err != nil {
+			if firstErr == nil {
+				firstErr = err
+			} else {
+				firstErr = fmt.Errorf("%w, also: %w", firstErr, err)
+			}
 		}
 		if r.Selection.parent == nil || !bubble {
 			break
